@@ -110,7 +110,7 @@ def support_exact(pre, fock):
 def get_op(world, r):
     """Return (Operation, spec); constructs it on demand (and records user arrays)."""
     name = r["op"]
-    if name in world.ops:
+    if name in world.ops and not getattr(world, "fresh_ops", False):
         return world.ops[name]
     spec = r.get("spec") or world.op_specs.get(name)
     if spec is None:
@@ -210,6 +210,8 @@ def _applicable(world, pre, r, do):
         return (r["name"] not in world.customs), "exists"
     if do == "mk_op":
         return (r["op"] not in world.ops), "exists"
+    if do == "mut_op":
+        return (r["op"] in world.ops and r["as"] not in world.ops and r["as"] in world.op_specs), "pool"
     if do == "mk_ce":
         if r["name"] in world.ces:
             return False, "exists"
@@ -337,6 +339,14 @@ def _applicable(world, pre, r, do):
         if do == "sub.expand" and b.form == "matrix":
             return False, "already-matrix"
         return True, ""
+    if do == "ps.contract":
+        n = r["sub"]
+        if not _exists(pre, n) or not _live(pre, n):
+            return False, "target-not-live"
+        b = pre.block_of(n)
+        if b is None or b.kind != "ps" or r.get("ce") not in world.ces or not _in_class(world, n, r["ce"]):
+            return False, "not-in-product-space"
+        return True, ""
     if do in ("ce.combine", "ce.reorder", "ce.expand"):
         on = r["on"]
         ok, why = _targets_ok(world, pre, {**r, "entry": "ce"}, on, "ce", 6)
@@ -435,6 +445,9 @@ def addressed_of(world, pre, r):
         return [n for n in (e + ".f", e + ".p") if _live(pre, n)]
     if do in ("sub.expand", "sub.contract", "resize"):
         return [r["sub"]]
+    if do == "ps.contract":
+        b = pre.block_of(r["sub"])
+        return list(b.members) if b is not None else [r["sub"]]
     if do == "fault":
         return list(r.get("on", []))
     return []
@@ -481,6 +494,21 @@ def _execute(world, pre, r, do):
         return ExecResult("ok", addressed=[])
     if do == "mk_op":
         op, spec = get_op(world, r)
+        return ExecResult("ok", addressed=[])
+    if do == "mut_op":
+        # a parameter scan that re-uses one Operation object: op.kwargs[...] = new value. The pool
+        # knows the object under a new name from here on (specs are immutable, replays stay exact)
+        op, old = world.ops.pop(r["op"])
+        new = world.op_specs[r["as"]]
+        if new["t"] == "F.Displace":
+            op.kwargs["alpha"] = complex(new["re"], new["im"])
+        elif new["t"] == "F.Squeeze":
+            op.kwargs["zeta"] = complex(new["re"], new["im"])
+        else:
+            for k in ("theta", "phi", "omega", "eta"):
+                if k in new and new[k] != old.get(k):
+                    op.kwargs[k] = new[k]
+        world.ops[r["as"]] = (op, new)
         return ExecResult("ok", addressed=[])
     if do == "mk_ce":
         args = []
@@ -586,12 +614,20 @@ def _execute(world, pre, r, do):
         )
     if do == "env.expand":
         return ExecResult("ok", ret=world.envs[r["env"]].expand(), addressed=S)
+    kwt = {"tol": float(r["tol"])} if r.get("tol") else {}
     if do == "env.contract":
-        return ExecResult("ok", ret=world.envs[r["env"]].contract(), addressed=S)
+        return ExecResult("ok", ret=world.envs[r["env"]].contract(**kwt), addressed=S)
+    if do == "ps.contract":
+        # the product space that holds the member, contracted directly (CompositeEnvelope.contract is a stub)
+        target = world.sub(r["sub"])
+        for ps in world.ces[r["ce"]].product_states:
+            if any(so is target for so in ps.state_objs):
+                return ExecResult("ok", ret=ps.contract(**kwt), addressed=S)
+        raise RuntimeError("harness: product space not found")
     if do == "sub.expand":
         return ExecResult("ok", ret=world.sub(r["sub"]).expand(), addressed=S)
     if do == "sub.contract":
-        return ExecResult("ok", ret=world.sub(r["sub"]).contract(), addressed=S)
+        return ExecResult("ok", ret=world.sub(r["sub"]).contract(**kwt), addressed=S)
     if do == "ce.combine":
         return ExecResult(
             "ok", ret=world.ces[r["ce"]].combine(*[world.sub(n) for n in r["on"]]), addressed=S
